@@ -1234,3 +1234,15 @@ mod tests {
         Ok(())
     }
 }
+
+/*
+ * Verification hook (feature "verif", off by default): read-only view of the
+ * parsed entry sequence.  Does not alter behaviour.
+ */
+#[cfg(feature = "verif")]
+impl Plist {
+    #[doc(hidden)]
+    pub fn verif_entries(&self) -> &[PlistEntry] {
+        &self.entries
+    }
+}
